@@ -91,6 +91,69 @@ def fold_wrapping_data_maps(ctx, keycls, getter, setter):
         return None
 
 
+
+def check_client_arguments_not_dropped(ctx):
+    """C05.R12: the client library never drops a supplied argument on a configuration-dependent path."""
+    from ..pathsim import Sim
+    PIE = 'kmip/pie/client.py'
+    ctx.rule('C05.R12', 'in ProxyKmipClient no method drops a supplied argument depending on the client configuration alone: on every path from the entry of a '
+                        'method to a normal return on which a parameter may hold a value (it was not tested empty/None on that path) the parameter is read - passed on, '
+                        'stored or converted - unless the return is guarded only by tests on the data itself (nothing to build); a return that is reached because of a test '
+                        'on self.<configuration> (the KMIP version ...) with the argument still unread sends the request without it, and the object is stored without '
+                        'what the caller supplied')
+    t = ctx.src.tree(PIE)
+    cls = get_class(t, 'ProxyKmipClient')
+    n_inst = 0
+    for name in sorted(methods(cls)):
+        if name.startswith('__'):
+            continue
+        fn = get_method(cls, name)
+        ps = params(fn)
+        if not ps:
+            continue
+        g = CFG(fn)
+        data_names = set(ps) | {x.id for x in walk_local(fn) if isinstance(x, ast.Name) and isinstance(x.ctx, (ast.Store, ast.Del))}
+        exits = [pn for pn, lab in g.exit.pred if not (pn.kind == 'stmt' and isinstance(pn.stmt, ast.Raise)) and lab not in ('exc', 'raise')]
+        for P in ps:
+            n_inst += 1
+
+            def reads(node, P=P):
+                s_ = node.stmt
+                if s_ is None:
+                    return False
+                if node.kind == 'loop':
+                    scope = [s_]                       # the iterable and the whole body: a loop over no element reads nothing, and that is fine
+                elif node.kind in ('stmt', 'with'):
+                    scope = [s_]
+                else:
+                    return False
+                return any(isinstance(x, ast.Name) and x.id == P and isinstance(x.ctx, ast.Load) for sc in scope for x in ast.walk(sc))
+
+            def hook(sim, node, env, reads=reads):
+                if reads(node):
+                    env['#used'] = ('c', True)
+            sim = Sim(g, hook=hook)
+            flagged = {}
+            for stop, lab, env in sim.run([g.entry], exits):
+                if env.get('#used') == ('c', True) or reads(stop):
+                    continue
+                if env.get('?' + P) in (('falsy',), ('none',)):
+                    continue
+                flagged[stop.id] = stop
+            for stop in flagged.values():
+                doms = dominating_edges(g, stop)
+                tests = [tt.stmt for tt, lab in doms]
+                mentions = lambda e, names: any(isinstance(x, ast.Name) and x.id in names for x in ast.walk(e))
+                if any(mentions(e, {P}) for e in tests):
+                    continue
+                config_only = [e for e in tests if not mentions(e, data_names) and any(is_self_attr(x) for x in ast.walk(e))]
+                if config_only:
+                    e = config_only[-1]
+                    ctx.fail('C05.R12', 'ProxyKmipClient.%s|%s dropped under %s' % (name, P, U(e)[:60]), '%s:%s ProxyKmipClient.%s' % (PIE, getattr(stop.stmt, 'lineno', fn.lineno), name),
+                             'the method returns with the argument %s unread when %s: a value the caller supplied is silently left out of the request' % (P, U(e)[:80]))
+    ctx.count('client_method_parameters', n_inst, 55)
+    ctx.ok('C05.R12', PIE, '%d (method, parameter) pairs of ProxyKmipClient: no configuration-dependent return leaves a supplied argument unread' % n_inst)
+
 def run(ctx):
     src = ctx.src
     m = EngineModel(src)
@@ -674,6 +737,7 @@ def run(ctx):
                  'handler %s modifies field %s of an object loaded from the store although the operation only reads: the change is flushed by the next commit of the batch (or of a later item), and later reads return the modified value' % (root, field))
     if not ro:
         ctx.ok('C05.R7', ENGINE, 'no mutation of a loaded object outside the six modifying handlers (%d mutation events)' % n_mut)
+    check_client_arguments_not_dropped(ctx)
     ctx.not_decided += ['byte fidelity of values through SQLite/SQLAlchemy/TTLV for arbitrary values; restarts on the same database file',
                         'GetAttributes reporting exactly the supplied attributes for arbitrary values']
     ctx.assumptions += ['ROLE alias table (key_value/certificate_value/opaque_data_value <-> value, etc.) transcribes the field roles']
